@@ -332,6 +332,26 @@ def constructor(raw: List[int], vmin: int, vmax: int) -> bool:
     return True
 
 
+def sample_args(rng, kwargs):
+    """differential runs: arguments inside the guarded ranges"""
+    out = {}
+    low = rng.randrange(0, 6)
+    for name in kwargs:
+        if name == 'vmin':
+            out[name] = low
+        elif name == 'vmax':
+            out[name] = low + rng.randrange(0, 10)
+        elif name in ('raw', 'extra'):
+            out[name] = [rng.randrange(0, 9) for _ in range(rng.randrange(0, 4))]
+        elif name in ('index', 'stop'):
+            out[name] = rng.randrange(-4, 5)
+        elif name == 'start':
+            out[name] = P.get('START', 0)
+        elif name == 'value':
+            out[name] = rng.randrange(0, 9)
+    return out
+
+
 OPS = ['constructor', 'op_append', 'op_insert', 'op_extend', 'op_iadd', 'op_pop', 'op_pop_default', 'op_remove',
        'op_delitem', 'op_delslice', 'op_setitem', 'op_setslice', 'op_reverse', 'op_clear']
 
